@@ -96,6 +96,7 @@ def run(ctx):
                 else:
                     ctx.check(own_key, "R02.2", "%s|forwards-callers-key" % f.name, "the caller's key is forwarded unchanged to the next layer", f.where(bb), fmt(k))
     # closures of read APIs (multi_get): pair (key, get(key)) from the same closure parameter
+    pairings = {}
     for f in reads:
         for c in F.closures_of(f):
             for bb, t in c.calls():
@@ -110,6 +111,7 @@ def run(ctx):
                     if r[0] == "agg" and r[1] == "tuple":
                         ok = ok and r[3][0][1] == ("param", 2) and strip_site(r[3][1][1]) == strip_site(c.origin_call(bb, t))
                     ctx.check(ok, "R02.2", "%s|pairs-key-with-its-own-value" % c.name, "each key is paired with the value read for that same key", c.where(bb), fmt(r))
+                    pairings[f.name] = pairings.get(f.name, 0) + 1
     # the same pairing written as a loop: `for key in keys { map.insert(key, self.get(key)) }`
     for f in reads:
         if f.rec.get("impl_trait") == "std::iter::Iterator":
@@ -127,6 +129,13 @@ def run(ctx):
                     okp = okp and e.args[1] == ELEM(k_) and any(x.args[1] == ELEM(k_) and strip_site(x.args[2]) == strip_site(e.res) for x in ins)
             if n_reads:
                 ctx.check(okp, "R02.2", "%s|pairs-key-with-its-own-value" % f.name, "each key is paired with the value read for that same key", EL.where())
+                pairings[f.name] = pairings.get(f.name, 0) + 1
+    # a read API that answers several keys at once (returns a map) must show such a pairing: a value that reaches the map
+    # some other way (a memo keyed by the key's *hash*, a positional zip with a separately built list) is not tied to its key
+    for f in reads:
+        if f.kind != "Closure" and "HashMap<" in (f.rec.get("ret") or "") and f.rec.get("reachable"):
+            ctx.check(pairings.get(f.name, 0) >= 1, "R02.2", "%s|multi-read-pairs-found" % f.name,
+                      "a read answering several keys pairs each key with the result of a read *of that key* made in the same step (pairing site found)", f.where())
     # iterator: index read == index removed
     for f in reads:
         if f.rec.get("impl_trait") != "std::iter::Iterator":
